@@ -72,12 +72,15 @@ fn run(args: &[String]) -> i32 {
         // three matches whose context windows overlap: 9..10, 12..14, 15..16 with ctx 4
         ("rule r { strings: $a = \"Q\" $b = \"AB\" $c = \"M\" condition: #a >= 0 and #b >= 0 and #c >= 0 }".to_string(),
          vec![(0, b".........Q..AB.M..............".to_vec())], 4, false),
+        ("rule r { strings: $a = \"Q\" $b = \"AB\" condition: #a >= 0 and #b >= 0 }".to_string(), vec![(0, b"..Q....AB..".to_vec())], usize::MAX, true),
+        ("rule r { strings: $a = \"Q\" $b = \"AB\" condition: #a >= 0 and #b >= 0 }".to_string(), vec![(7, b"..Q..".to_vec()), (12, b"..AB..".to_vec())], usize::MAX, false),
     ];
     while shards.total < n {
         let (src, blocks, ctx, single) = if !corpus.is_empty() { corpus.remove(0) } else {
             let (src, _) = gen_rules(&mut rng);
             let single = rng.chance(1, 3);
-            let ctx = *rng.pick(&[0usize, 0, 1, 2, 3, 4, 5, 8, 16, 1000]);
+            // usize::MAX is the natural way to ask for "all the context there is": no arithmetic on it may overflow
+            let ctx = *rng.pick(&[0usize, 0, 1, 2, 3, 4, 5, 8, 16, 1000, usize::MAX, usize::MAX - 1, usize::MAX - 20, usize::MAX / 2 + 1]);
             let total = 8 + rng.below(56) as usize;
             let data = gen_data(&mut rng, total);
             let blocks = if single { vec![(0usize, data)] } else {
@@ -103,7 +106,8 @@ fn run(args: &[String]) -> i32 {
         // max_matches_per_pattern: default, or a small limit (0 and 1 included)
         let limit: Option<usize> = if rng.chance(1, 3) { Some(*rng.pick(&[0usize, 1, 1, 2, 3])) } else { None };
         if let Some(l) = limit { stats.inc(&format!("max_matches_{}", l)); }
-        let obs = if single {
+        // a panic anywhere (scan, finish, reading the match data) becomes an impossible observation with a replay
+        let obs = catch(AssertUnwindSafe(|| if single {
             let mut s = yara_x::Scanner::new(&rules);
             s.match_context_size(ctx);
             if let Some(l) = limit { s.max_matches_per_pattern(l); }
@@ -116,7 +120,7 @@ fn run(args: &[String]) -> i32 {
             for (b, d) in &blocks { s.scan(*b, d).unwrap(); }
             let r = s.finish().unwrap();
             collect(&r)
-        };
+        })).and_then(|x| x);
         let obs = match obs {
             Ok(o) => o,
             Err(e) => {
@@ -132,7 +136,7 @@ fn run(args: &[String]) -> i32 {
         // overlapping context windows are the interesting shape
         let mut sorted: Vec<(usize, usize)> = obs.iter().map(|o| (o.rs, o.re)).collect();
         sorted.sort();
-        if sorted.windows(2).any(|w| w[1].0 < w[0].1 + 2 * ctx) { stats.inc("overlapping_context_windows"); }
+        if sorted.windows(2).any(|w| w[1].0 < w[0].1.saturating_add(ctx.saturating_mul(2))) { stats.inc("overlapping_context_windows"); }
         let coq_obs = coq_list(&obs, |o| format!("mkObs {} {} {} {} {} {}", o.rs, o.re, coq_list(&o.data, |b| b.to_string()),
             coq_list(&o.ctx, |b| b.to_string()), o.rel.0, o.rel.1));
         let coq_blocks = coq_list(&blocks, |(b, d)| format!("({}, {})", b, coq_list(d, |x| x.to_string())));
